@@ -2,7 +2,7 @@
 From Coq Require Import ZArith List Bool Lia.
 Import ListNotations.
 Require Export MV.Lib.Base MV.C02.Defs MV.C02.Gen MV.C02.Model MV.C02.Proofs_Base MV.C02.Proofs_Steps
-               MV.C02.Proofs_Edges MV.C02.Proofs_Faces MV.C02.Proofs_Corners MV.C02.Proofs_Attrs MV.C02.Proofs_Idem MV.C02.Proofs_Clear.
+               MV.C02.Proofs_Edges MV.C02.Proofs_Faces MV.C02.Proofs_Corners MV.C02.Proofs_Attrs MV.C02.Proofs_Idem MV.C02.Proofs_Clear MV.C02.Proofs_More.
 Open Scope Z_scope.
 
 (* two tetrahedra sharing a face, one declared face, declared edges among which a self-loop, an out-of-range edge and
@@ -69,3 +69,36 @@ Example ex_stale_face_corners : exists r',
   prepare (true, true) (mkRaw [[0;0;0];[1;0;0];[0;1;0];[1;1;0]] [] [] [[0;1;2];[1;3;2]] [0;1;2] [0;0;0] [] [] [] [] []) = Ok r'
   /\ fc_elem r' = [0;1;2;1;3;2] /\ fc_adj r' = [0;0;0;1;1;1].
 Proof. eexists. split; [vm_compute; reflexivity|]. split; reflexivity. Qed.
+
+Lemma tables_thm : (forall v0 v1 v2 v3,
+     cfc_cell_faces [v0; v1; v2; v3] = map (map (fun i => znth [v0; v1; v2; v3] i 0)) tet_index_table)
+  /\ (forall v0 v1 v2 v3 v4 v5 v6 v7, cfc_cell_faces [v0; v1; v2; v3; v4; v5; v6; v7] =
+        map (map (fun i => znth [v0; v1; v2; v3; v4; v5; v6; v7] i 0)) hex_index_table)
+  /\ closed_table tet_index_table = true /\ closed_table hex_index_table = true
+  /\ forallb (fun v => Nat.eqb (vertex_degree hex_index_table v) 3) [0; 1; 2; 3; 4; 5; 6; 7] = true
+  /\ (forall C, (length C = 4%nat \/ length C = 8%nat) -> gcf_cell_faces C = Some (cfc_cell_faces C)).
+Proof.
+  exact (conj tet_table_natural (conj hex_table_natural (conj (proj1 tet_table_closed)
+          (conj (proj1 hex_table_closed) (conj (proj1 (proj2 hex_table_closed)) tables_agree))))).
+Qed.
+
+(* 2-D points in raw containers (what a two-column .obj/.off gives too), mixed with a 3-D one *)
+Example ex_vertices_2d : exists r',
+  prepare (true, true) (mkRaw [[0; 0]; [4; 0]; [0; 4; 8]] [] [] [[0; 1; 2]] [] [] [] [] [] [] []) = Ok r'
+  /\ vertices r' = [[0; 0; 0]; [4; 0; 0]; [0; 4; 8]].
+Proof. eexists. split; [vm_compute; reflexivity | reflexivity]. Qed.
+
+(* corner containers pre-filled by an importer (surface: kept; volume file with faces: face corners replaced because the
+   completed faces change the count) *)
+Example ex_prefilled : fc_incoming_ok (mkRaw [[0;0;0];[1;0;0];[0;1;0];[0;0;1]] [] [] [[0;1;2]] [0;1;2] [0;0;0] [[0;1;2;3]] [0;1;2;3] [0;0;0;0] [] [])
+  /\ cc_incoming_ok (mkRaw [[0;0;0];[1;0;0];[0;1;0];[0;0;1]] [] [] [[0;1;2]] [0;1;2] [0;0;0] [[0;1;2;3]] [0;1;2;3] [0;0;0;0] [] [])
+  /\ exists r', prepare (true, true) (mkRaw [[0;0;0];[1;0;0];[0;1;0];[0;0;1]] [] [] [[0;1;2]] [0;1;2] [0;0;0] [[0;1;2;3]] [0;1;2;3] [0;0;0;0] [] []) = Ok r'
+      /\ length (fc_elem r') = 12%nat /\ cc_adj r' = [0;0;0;0].
+Proof.
+  split; [right; split; reflexivity|]. split; [right; split; reflexivity|].
+  eexists. split; [vm_compute; reflexivity|]. split; reflexivity.
+Qed.
+
+(* the guard of C02_edges_nodup_if_declared_distinct holds for ex_raw's ... no: ex_raw declares (1,0) and (0,1); a distinct one: *)
+Example ex_declared_distinct : NoDup (filter (evalid 4) (map kedge [(1, 0); (3, 3); (2, 3); (9, 1)])).
+Proof. vm_compute. repeat constructor; cbn; intuition discriminate. Qed.
